@@ -303,6 +303,11 @@ def c11(ctx, api):
     acc.add('GenStr: all strings of length <= %d over {a, e-acute, U+0301, euro, U+FFFD, emoji} x ~170 string operations' % n, st, summ)
     st, summ = api['run_tlc_to_harness'](ctx, 'align', 'GenAlign', cfg(constants={'Emit': 'TRUE', 'Prop': '"C11"', 'MaxK': 34 if thorough else 26}), timeout=1500)
     acc.add('GenAlign: position-sensitive string operations with a multi-byte character at every offset 0..%d' % (34 if thorough else 26), st, summ)
+    st, summ = api['run_tlc_to_harness'](ctx, 'sweep', 'GenSweep', cfg(constants={'Emit': 'TRUE', 'Prop': '"C11"', 'From': 0, 'To': 9000 if thorough else 1100}),
+                                         timeout=1500, harness_args=['-timeout', '300s'])
+    acc.add('GenSweep: 40 token families (raw / JSON / quoted literals with 1-4-byte characters and escapes, blanks, identifiers, ill-formed '
+            'and unterminated literals) at EVERY repetition count 0..%d, i.e. every byte alignment across 512 .. 32768-byte boundaries; '
+            'Search and Compile at each length (expected outcome a function of n, SweepLemma)' % (9000 if thorough else 1100), st, summ)
     tv = api['run_trace_validation'](ctx, 'unicode-traces', 3000 if thorough else 800, ctx['seed'], corpus=False, mode='unicode')
     acc.add_traces('trace validation: 30 string operations on random strings of <= 7 code points over 12 symbols (1-4 bytes, combining mark, '
                    'U+FFFD, U+10000), recorded from the real Search and checked by TLC', tv)
@@ -342,6 +347,11 @@ def c16(ctx, api):
     st, summ = api['run_tlc_to_harness'](ctx, 'counts', 'GenCost', cfg(constants={'Emit': 'TRUE', 'Prop': '"C16"'}), timeout=1500,
                                          harness_args=['-only', 'count', '-timeout', '60s'])
     acc.add('literals with 255 / 256 / 257 / 65535 / 65536 / 65537 escapes, characters or elements (9 families; expected value = the count)', st, summ)
+    st, summ = api['run_tlc_to_harness'](ctx, 'sweep', 'GenSweep', cfg(constants={'Emit': 'TRUE', 'Prop': '"C16"', 'From': 0, 'To': 9000 if thorough else 1100}),
+                                         timeout=1500, harness_args=['-timeout', '300s'])
+    acc.add('GenSweep: 40 token families (raw / JSON / quoted literals with 1-4-byte characters and escapes, blanks, identifiers, ill-formed '
+            'and unterminated literals) at EVERY repetition count 0..%d, i.e. every byte alignment across 512 .. 32768-byte boundaries; '
+            'Search and Compile at each length (expected outcome a function of n, SweepLemma)' % (9000 if thorough else 1100), st, summ)
     return acc.result(RULE_PINNED, extra={'model_checks': ['LiteralDecodesToItself', 'DecEncRaw', 'DecEncQuoted', 'DecEncJSON', 'OneToken', 'CountLemma']})
 
 
@@ -367,6 +377,11 @@ def c04(ctx, api):
     finally:
         ctx['harness_env'] = {}
     acc.add('long members of the grammar: 12 repetition families (nested to 100,000 levels, flat to 300,000 repetitions) must compile', st, summ)
+    st, summ = api['run_tlc_to_harness'](ctx, 'sweep', 'GenSweep', cfg(constants={'Emit': 'TRUE', 'Prop': '"C04"', 'From': 0, 'To': 9000 if thorough else 1100}),
+                                         timeout=1500, harness_args=['-timeout', '300s'])
+    acc.add('GenSweep: 40 token families (raw / JSON / quoted literals with 1-4-byte characters and escapes, blanks, identifiers, ill-formed '
+            'and unterminated literals) at EVERY repetition count 0..%d, i.e. every byte alignment across 512 .. 32768-byte boundaries; '
+            'Search and Compile at each length (expected outcome a function of n, SweepLemma)' % (9000 if thorough else 1100), st, summ)
     return acc.result('every concatenation of at most k lexemes of each alphabet is compiled by the real library (the harness '
                       'enumerates them itself) and compared with the static outcome of the specification, which TLC computed for '
                       'the same enumeration (TLC prints only the texts that are not plain syntax errors); a case is non-trivial '
@@ -636,6 +651,11 @@ def c03(ctx, api):
     st, summ = api['run_tlc_to_harness'](ctx, 'cost', 'GenCost', cfg(constants={'Emit': 'TRUE', 'Prop': '"C03"'}), timeout=3000,
                                          harness_args=['-only', 'cost', '-workers', '8'])
     acc.add('GenCost: integer parameters at the 64-bit limits in every position', st, summ)
+    st, summ = api['run_tlc_to_harness'](ctx, 'sweep', 'GenSweep', cfg(constants={'Emit': 'TRUE', 'Prop': '"C03"', 'From': 0, 'To': 9000 if thorough else 1100}),
+                                         timeout=1500, harness_args=['-timeout', '300s'])
+    acc.add('GenSweep: 40 token families (raw / JSON / quoted literals with 1-4-byte characters and escapes, blanks, identifiers, ill-formed '
+            'and unterminated literals) at EVERY repetition count 0..%d, i.e. every byte alignment across 512 .. 32768-byte boundaries; '
+            'Search and Compile at each length (expected outcome a function of n, SweepLemma)' % (9000 if thorough else 1100), st, summ)
     return acc.result('a case passes when Compile / Search / Expression.Search return normally (value or error, error formats, no panic, no fatal '
                       'runtime error, no hang); cases run in child processes so that a crash or hang is attributed to its input; non-trivial = '
                       'the specification also pins the outcome', level='model_checking')
